@@ -108,6 +108,7 @@ class Rec:
         self.samples = []
         self.max_ratio = 0.0
         self.max_ratio_at = None
+        self.closest = None
         self.ratios = {}  # name -> max err/tol
         self.counters = {}  # free-form integer counters (out_of_domain, oracle_unconverged, ...)
         self.ctx = {}  # current context merged into failure details
@@ -196,6 +197,11 @@ class Rec:
             if ok and ratio > self.max_ratio:
                 self.max_ratio = ratio
                 self.max_ratio_at = name
+                # the closest call so far, with its context (evidence: where the headroom is thin)
+                self.closest = {"check": name, "mechanism": mech or name,
+                                "err_over_tol": ratio, "max_abs_err": float(np.max(err)),
+                                "detail": {k: v for k, v in (detail or {}).items()
+                                           if isinstance(v, (str, int, float, bool, list, tuple))}}
         if not ok:
             d = {
                 "check": name,
@@ -247,6 +253,7 @@ class Rec:
             "samples": self.samples,
             "max_ratio": self.max_ratio,
             "max_ratio_at": self.max_ratio_at,
+            "closest": self.closest,
             "ratios": self.ratios,
             "counters": self.counters,
             "notes": self.notes,
